@@ -815,34 +815,31 @@ class ChunkedPlateCarreeSampler(object):
         """
         from .image import Image
 
-        chunk_lon_min, chunk_lon_max, chunk_lat_min, chunk_lat_max = self._chunk_bounds(
-            ichunk
-        )
         data = self._image.chunk_data(ichunk)
         data_img = Image.from_array(data)
         buffer = data_img.mode.make_maskable_buffer(256, 256)
         biy, bix = np.indices((256, 256))
 
         ny, nx = data.shape[:2]
-        dx = nx / (
-            chunk_lon_max - chunk_lon_min
-        )  # pixels per radian in the X direction
-        dy = ny / (chunk_lat_max - chunk_lat_min)  # ditto, for the Y direction
-        lon0 = (
-            chunk_lon_min + 0.5 / dx
-        )  # longitudes of the centers of the pixels with ix = 0
-        lat0 = (
-            chunk_lat_max - 0.5 / dy
-        )  # latitudes of the centers of the pixels with iy = 0
+
+        chunk_x, chunk_y = self._image.chunk_spec(ichunk)[:2]
+        global_ny, global_nx = self._image.shape[:2]
 
         def plate_carree_planet_sampler(lon, lat):
             lon = (lon + np.pi) % TWOPI - np.pi  # ensure in range [-pi, pi]
-            ix = (lon - lon0) * dx
-            ix = np.round(ix).astype(int)
+
+            # Locate each point in the *global* pixel grid first, using the
+            # same arithmetic for every chunk, so that a point lying exactly
+            # on the border between two chunks is claimed by exactly one of
+            # them. (Computing chunk-relative indices directly can leave such
+            # points unclaimed by both neighbors due to roundoff.)
+            ix = np.floor((lon + np.pi) / self.sx).astype(int)
+            ix = np.clip(ix, 0, global_nx - 1) - chunk_x
             ok = (ix >= 0) & (ix < nx)
 
-            iy = (lat0 - lat) * dy  # *assume* in range [-pi/2, pi/2]
-            iy = np.round(iy).astype(int)
+            # *assume* lat in range [-pi/2, pi/2]
+            iy = np.floor((HALFPI - lat) / self.sy).astype(int)
+            iy = np.clip(iy, 0, global_ny - 1) - chunk_y
             ok &= (iy >= 0) & (iy < ny)
 
             data_img.fill_into_maskable_buffer(buffer, iy[ok], ix[ok], biy[ok], bix[ok])
